@@ -187,6 +187,11 @@ def patterns(tier: str, seed: int) -> list[dict]:
         t += S(gap_s)
         calls += [[t + rnd.choice((0, 1, 100, 7400, 7600)) * j, 6] for j in range(100)]
     addm("bursts-with-idle-gaps", calls=calls)
+    # the broker re-announces the gateway / delivers inbound traffic between and during bursts
+    addm("bursts-with-status-reannounced", calls=[[S(20) * (j // 100) + (j % 100), 6] for j in range(400)],
+         broker=[[S(20) * k - 5, "online"] for k in range(1, 4)] + [[S(20) * k + 50, "online"] for k in range(1, 4)])
+    addm("closed-loop-with-broker-traffic", clients=[[0, [[0, 10]] * 400]],
+         broker=[[S(rnd.uniform(0, 200)), rnd.choice(("online", "rx", "rx"))] for _ in range(60)])
     for mean in (0.05, 0.74, 0.76, 2.0):
         t, calls = 0, []
         for _ in range(400):
